@@ -104,6 +104,10 @@ func fnAcquires(p *Program, fn *ssa.Function, depth int, memo map[*ssa.Function]
 			if _, isGo := in.(*ssa.Go); isGo {
 				continue
 			}
+			// forEach(f, true) runs the handlers on a goroutine of its own: nothing they lock is acquired by this call
+			if sc := ci.Common().StaticCallee(); sc != nil && FuncName(originOf(sc)) == "(*sio.handlerStore[T]).forEach" && len(ci.Common().Args) == 3 && Term(ci.Common().Args[2]) == "true" {
+				continue
+			}
 			if sc := ci.Common().StaticCallee(); sc != nil && p.inModule(sc) {
 				for c, m := range fnAcquires(p, originOf(sc), depth-1, memo, stack) {
 					if old, ok := out[c]; !ok || m == LockW || old == 0 {
@@ -244,6 +248,10 @@ func lockOrderEdges(p *Program) []orderEdge {
 					continue
 				}
 				if _, isGo := in.(*ssa.Go); isGo {
+					continue
+				}
+				// forEach(f, true) runs the handlers on a goroutine of its own: the caller's locks are not held in them
+				if sc := call.Common().StaticCallee(); sc != nil && FuncName(originOf(sc)) == "(*sio.handlerStore[T]).forEach" && len(call.Common().Args) == 3 && Term(call.Common().Args[2]) == "true" {
 					continue
 				}
 				if _, isDefer := in.(*ssa.Defer); isDefer {
